@@ -137,7 +137,8 @@ def h1_session(requests: List[Dict[str, Any]]) -> Dict[str, Any]:
                 "total": 0 if body is None else body["len"],
                 "kind": rq.get("kind", "http"),
                 "stream": 0,
-                "te": False,
+                # (matters only for a request that is upgraded to HTTP/2: there the offer gates the trailers)
+                "te": any(h[0].lower() == "te" and h[1].strip().lower() == "trailers" for h in hdrs),
                 "hs": rq.get("hs", HS_NONE),
                 "badbody": bool(body is not None and body.get("bad_chunk")),
             }
